@@ -391,8 +391,7 @@ pub fn run(opts: &Opts) -> Report {
     // (d) every built-in x tuples from the pool
     let (names, from_source) = builtin_names();
     rep.notes.push(format!("built-in name table: {} names, {}", names.len(), if from_source { "read from the repository's default_funcs.rs / default_macros.rs" } else { "translator_tie: unavailable (fallback list)" }));
-    let step = if opts.thorough { 1 } else { 4 };
-    let idx: Vec<usize> = (0..all.len()).step_by(step).collect();
+    let idx: Vec<usize> = if opts.thorough { (0..all.len()).collect() } else { pool::quick_indices() };
     rep.notes.push(format!("boundary pool: {} values, {} used for built-in tuples in this tier", all.len(), idx.len()));
     for name in names.iter() {
         jobs.push(single("builtin-arity0", format!("{}()", name), vec![]));
